@@ -1339,6 +1339,95 @@ func (w *world) siblingInstanceProofScript() {
 	}
 }
 
+// staleNewViewScript (no Byzantine member): member 1 is elected for view 1 but its NEW_VIEW is slow; the others time out
+// again and elect member 2 for view 2, which proposes a fresh block. Then the NEW_VIEW of view 1 reaches member 2 - a
+// view it has left - followed by a duplicate of a vote for view 2. Member 2 must not be elected for view 2 a second
+// time (C10: one proposal per height and view).
+func (w *world) staleNewViewScript() {
+	for _, n := range w.honest {
+		w.sync(n, nil)
+	}
+	for _, id := range []uint64{0, 2, 3} {
+		w.election(w.byId[id], 1, 0)
+	}
+	w.takeV(1, "VC", 0, 1)
+	w.takeV(1, "VC", 2, 1)
+	w.takeV(1, "VC", 3, 1)
+	for _, id := range []uint64{0, 2, 3} {
+		w.election(w.byId[id], 1, 1)
+	}
+	var dup *pend
+	for i := range w.pool {
+		p := w.pool[i]
+		if p.to == 2 && p.msg.Kind == "VC" && p.msg.sender() == 0 && p.msg.view() == 2 {
+			c := p
+			dup = &c
+		}
+	}
+	w.takeV(2, "VC", 0, 2)
+	w.takeV(2, "VC", 3, 2)
+	if !w.takeV(2, "NV", 1, 1) || dup == nil {
+		w.rep.count("world:directed-stale-new-view-setup-failed")
+		return
+	}
+	w.rep.count("sched:duplicate-delivery")
+	w.deliverG(w.byId[2], dup.msg, dup.raw, dup.genuine)
+	for k := 0; k < 60 && len(w.pool) > 0; k++ {
+		p := w.pool[0]
+		w.pool = w.pool[1:]
+		w.deliverG(w.byId[p.to], p.msg, p.raw, p.genuine)
+	}
+}
+
+// commitBeforePrepareScript (no Byzantine member): the COMMITs of members 0, 1, 3 overtake their PREPAREs on the way to
+// member 2, which therefore commits before it is prepared; its commit callback fails, so the term stays. The late
+// PREPAREs then make it prepared. The height must not be handed to the commit callback a second time (C13).
+func (w *world) commitBeforePrepareScript() {
+	w.failCommit[2] = []uint64{1}
+	for _, n := range w.honest {
+		w.sync(n, nil)
+	}
+	w.take(2, "PP", 0)
+	w.take(1, "PP", 0)
+	w.take(3, "PP", 0)
+	w.take(0, "P", 1)
+	w.take(0, "P", 3)
+	w.take(1, "P", 3)
+	w.take(3, "P", 1)
+	w.take(2, "C", 0)
+	w.take(2, "C", 1)
+	w.take(2, "C", 3)
+	w.take(2, "P", 1)
+	w.take(2, "P", 3)
+	for k := 0; k < 60 && len(w.pool) > 0; k++ {
+		p := w.pool[0]
+		w.pool = w.pool[1:]
+		w.deliverG(w.byId[p.to], p.msg, p.raw, p.genuine)
+	}
+}
+
+// lockedThenReproposedPrefix (member 3 Byzantine and silent, so the three correct members are exactly a quorum): member
+// 1 gets prepared on the leader's block A in view 0, nobody commits; everybody times out; member 1 leads view 1 and
+// re-proposes A, members 0 and 2 accept, but the PREPAREs of view 1 are lost. The state left behind - one member
+// prepared in view 0 that has stored a later proposal without being prepared on it - is where stabilisation starts (C05).
+func (w *world) lockedThenReproposedPrefix() {
+	for _, n := range w.honest {
+		w.sync(n, nil)
+	}
+	w.take(1, "PP", 0)
+	w.take(2, "PP", 0)
+	w.take(1, "P", 2)
+	w.pool = nil
+	for _, id := range []uint64{0, 1, 2} {
+		w.election(w.byId[id], 1, 0)
+	}
+	w.takeV(1, "VC", 0, 1)
+	w.takeV(1, "VC", 2, 1)
+	w.takeV(0, "NV", 1, 1)
+	w.takeV(2, "NV", 1, 1)
+	w.pool = nil
+}
+
 func (w *world) kf1ForkScript() {
 	for _, n := range w.honest {
 		w.sync(n, nil)
